@@ -284,6 +284,9 @@ def make_native(stub, platform):
             return f
 
         for n in names:
+            if n in getattr(stub, "native_missing", ()):
+                # a build of the extension without this optional interface
+                continue
             setattr(m, n, make(n))
 
         def __getattr__(name):
@@ -474,11 +477,19 @@ class Foreign(EngineBase):
         b = {"platform": rng.choice(PLATFORMS)}
         if b["platform"] == "win32" and rng.random() < 0.5:
             b["win_old"] = True
+        if b["platform"] == "aix7" and rng.random() < 0.5:
+            b["native_missing"] = rng.choice([
+                ["net_io_counters"], ["proc_io_counters", "proc_threads"]])
         return b
 
     def boot_config_for(self, b):
         boots = [{"platform": p_} for p_ in PLATFORMS] + [
-            {"platform": "win32", "win_old": True}]
+            {"platform": "win32", "win_old": True},
+            # AIX levels whose libperfstat lacks one interface or another
+            # (the extension compiles each of them conditionally)
+            {"platform": "aix7", "native_missing": ["net_io_counters"]},
+            {"platform": "aix7", "native_missing": ["proc_io_counters",
+                                                    "proc_threads"]}]
         return dict(boots[b % len(boots)])
 
     def world(self, platform, pidkind, state):
@@ -540,6 +551,7 @@ class Foreign(EngineBase):
     def import_psutil(self, scratch, kernel, boot):
         platform = boot["platform"]
         self.stub = Stub(platform)
+        self.stub.native_missing = tuple(boot.get("native_missing") or ())
         if platform == "win32":
             # Windows 7 (6.1) or 10: some native fallbacks only exist from
             # 8.1 (6.3) on
@@ -935,8 +947,10 @@ class Foreign(EngineBase):
               platform == "win32", "rlimit": platform.startswith("freebsd"),
               "cpu_affinity": platform in ("win32", "freebsd14"),
               "cpu_num": platform in ("freebsd14", "sunos5"),
-              "io_counters": platform not in ("darwin", "sunos5"),
-              "environ": True, "threads": True,
+              "io_counters": platform not in ("darwin", "sunos5") and
+              "proc_io_counters" not in self.stub.native_missing,
+              "environ": True,
+              "threads": "proc_threads" not in self.stub.native_missing,
               "memory_maps": platform in ("win32", "freebsd14", "sunos5")}
         bad = [m for m, w in pm.items()
                if w and not hasattr(psutil.Process, m)]
